@@ -153,6 +153,11 @@ func (c *Client) validateVirtualChannelSettlementProposal(
 		return errors.New("invalid balances")
 	}
 
+	// Assert that all other sub-allocations remain unchanged.
+	if !lockedWithout(parent.state().Locked, prop.State.Locked, prop.Final.Params.ID()) {
+		return errors.New("invalid sub-allocations")
+	}
+
 	return nil
 }
 
